@@ -19,12 +19,11 @@ use serde_json::{json, Value};
 use std::collections::HashSet;
 use std::time::Instant;
 
-const KNOWN_FINDINGS: &str = "/verif/known_findings.jsonl";
 
 /// keys "sub|input|config" of findings of `property` recorded as known (not repaired)
 fn load_known(property: &str) -> HashSet<String> {
     let mut set = HashSet::new();
-    if let Ok(s) = std::fs::read_to_string(KNOWN_FINDINGS) {
+    if let Ok(s) = std::fs::read_to_string(format!("{}/known_findings.jsonl", run::home())) {
         for line in s.lines() {
             let line = line.trim();
             if line.is_empty() || line.starts_with('#') {
@@ -58,7 +57,7 @@ fn run_property(def: &props::PropDef, tier: Tier, only: Option<(String, Vec<u8>,
         deadline: Instant::now() + caps.wall,
         results: vec![],
         only: only.map(|o| (o.0, o.1)),
-        hang_is_verdict: def.panics_are_verdict,
+        hang_is_verdict: true,
     };
     if let Err(e) = (def.run)(&mut r) {
         eprintln!("MACHINERY ERROR: {}", e.0);
@@ -84,14 +83,18 @@ fn run_property(def: &props::PropDef, tier: Tier, only: Option<(String, Vec<u8>,
     let mut exit = 0;
     if unlisted > 0 {
         exit = 1;
-        let _ = std::fs::create_dir_all("/verif/replays");
+        let _ = std::fs::create_dir_all(format!("{}/replays", run::home()));
         let mut printed = 0;
+        let mut seen_paths: HashSet<String> = HashSet::new();
         for v in &new_violations {
             let j = v.to_json(def.id, BUILD);
-            let path = format!("/verif/replays/{}-{:016x}.json", def.id, fnv64(format!("{}|{}", BUILD, v.key(def.id)).as_bytes()));
+            let path = format!("{}/replays/{}-{:016x}.json", run::home(), def.id, fnv64(format!("{}|{}", BUILD, v.key(def.id)).as_bytes()));
             if let Err(e) = std::fs::write(&path, serde_json::to_string_pretty(&j).unwrap()) {
                 eprintln!("MACHINERY ERROR: cannot write replay file {}: {}", path, e);
                 return (2, Value::Null);
+            }
+            if !seen_paths.insert(path.clone()) {
+                continue;
             }
             println!("VIOLATION property={} replay={}", def.id, path);
             if printed < 8 {
